@@ -33,6 +33,7 @@ def render_set(elems):
     return ",".join(out)
 
 
+NO_TOLD = {"next": 0, "vv": 0, "exists": 0, "counts": False, "recent": 0, "unseen": 0, "first": 0}
 EMPTY_CODE = {"name": "", "vv": 0, "src": [], "dst": []}
 
 
@@ -265,7 +266,7 @@ class MailDriver:
             "mbox": f.get("mbox", ""), "src": f.get("src", ""),
             "msgid": f.get("msgid", 0), "date": f.get("date", 0),
             "peek": bool(f.get("peek", True)),
-            "code": f.get("code", EMPTY_CODE), "told": f.get("told", {"next": 0, "vv": 0, "exists": 0}),
+            "code": f.get("code", EMPTY_CODE), "told": f.get("told", dict(NO_TOLD)),
             "out0": {n: [] for n in out} if act != "Admit" else out,
             "out": out if act != "Admit" else {n: [] for n in out}, "applied": f.get("applied", []), "apos": f.get("apos", 0),
             "g0": f.get("g0", 0), "renames": f.get("renames", []),
@@ -326,7 +327,7 @@ class MailDriver:
         applied, apos = [], 0
         status = res.status
         code = EMPTY_CODE
-        told = {"next": 0, "vv": 0, "exists": 0}
+        told = dict(NO_TOLD)
         if res.tagged is not None and res.tagged.get("code") in ("APPENDUID", "COPYUID"):
             parts = res.tagged["codearg"].split()
             try:
@@ -340,6 +341,7 @@ class MailDriver:
             except (ValueError, IndexError):
                 code = {"name": "GARBLED", "vv": 0, "src": [], "dst": []}
         found = []
+        seen_sel = set()
         for d in res.items:
             if d["kind"] == "UOK" and d.get("code") == "UIDNEXT":
                 told["next"] = int(d["codearg"])
@@ -357,8 +359,25 @@ class MailDriver:
                 told["next"] = d["items"].get("UIDNEXT", 0)
                 told["vv"] = d["items"].get("UIDVALIDITY", 0)
                 told["exists"] = d["items"].get("MESSAGES", 0)
+                if all(k in d["items"] for k in ("MESSAGES", "RECENT", "UNSEEN")):
+                    told.update(counts=True, recent=d["items"]["RECENT"], unseen=d["items"]["UNSEEN"])
+            if act in ("Select", "Examine"):
+                # aggregates of SELECT/EXAMINE: n EXISTS, n RECENT, OK [UNSEEN n] (absent: no unseen message)
+                if d["kind"] == "EXISTS":
+                    told["exists"] = d["n"]
+                    seen_sel.add("e")
+                if d["kind"] == "RECENT":
+                    told["recent"] = d["n"]
+                    seen_sel.add("r")
+                if d["kind"] == "UOK" and d.get("code") == "UNSEEN":
+                    try:
+                        told["first"] = int(d["codearg"])
+                    except ValueError:
+                        told["first"] = -1
             if d["kind"] == "SEARCH":
                 found = d["nums"]
+        if act in ("Select", "Examine") and seen_sel == {"e", "r"}:
+            told["counts"] = True
         env = self._env_start or 0
         ev = self.emit(act, sess=sess, res=res, status=status, uid=uid, src=f.pop("src", src),
                        code=code, told=told, applied=applied, apos=apos, g0=g0, dirty=dirty,
